@@ -34,7 +34,11 @@ TRANSIENT = {
 # ways an attempt can fail, and the atomicity clause ("no ... failed attempt leaves partial writes behind") covers them.
 BASE = ['base:0', 'base:1']
 OTHER = ['integ:1062', 'prog:1064', 'op:1644', 'op:1054', 'op:1317', 'op:1206', 'op:1105', 'data:1406', 'nosup:1235',
-         'int:1213', 'int:1040', 'integ:1205', 'prog:1213', 'iface:0', 'other:0'] + BASE
+         'int:1213', 'int:1040', 'integ:1205', 'prog:1213', 'iface:0', 'other:0',
+         # the numeric neighbours of the transient codes and the other client-side (CR_*) connection errors: none of them is in the
+         # property's transient list (seed C27-15 widened the retry set by 2006 "server has gone away")
+         'op:2006', 'op:2002', 'op:2014', 'op:2055', 'op:2012', 'op:2004', 'op:1041', 'op:1039', 'op:1204', 'op:1206', 'op:1212',
+         'op:1214'] + BASE
 
 
 # what a @transaction body does with a pymysql error of one of its statements: 'from' = `except MySQLError as e: raise AppError() from e`,
